@@ -8,6 +8,8 @@ From QVGen Require Import QToolsOps.
 From QV Require Import Link.QToolsLink.
 From QVGen Require Import LayerMapGen.
 From QV Require Import Link.LayerMapLink.
+From QVGen Require EstGen.
+From QV Require Link.EstLink.
 Import ListNotations.
 Open Scope Z_scope.
 
@@ -194,3 +196,12 @@ Theorem C18_code_preactivation_fits_stored_accumulator_with_bias :
 Proof. intros dw w x b kops kdw kws kxs kb Hw Hx Hb Mw Mx Mb Hk Hp Hl Hkb. cbv zeta. rewrite link_layer_accumulator.
   apply dense_preact_fits_with_bias; assumption. Qed.
 Print Assumptions C18_code_preactivation_fits_stored_accumulator_with_bias.
+
+(* ---- the per-channel bound of analyze_accumulator as /repo has it now (coq/gen/EstGen.v, regenerated on every run) ---- *)
+Theorem C18_est_translation_ok : EstGen.est_translation_ok = true.
+Proof. exact EstLink.link_est_ok. Qed.
+(* for every weight list, bias, input range and every input in that range the channel's output lies between -n0 and n1 OF THE CODE *)
+Theorem C18_code_estimator_bounds_every_output : forall ws xs b xmin xmax, in_box xmin xmax ws xs ->
+  (- snd (EstGen.gen_est ws b xmin xmax) <= qdot ws xs + b <= fst (EstGen.gen_est ws b xmin xmax))%Q.
+Proof. exact EstLink.link_est_bounds_output. Qed.
+Print Assumptions C18_code_estimator_bounds_every_output.
